@@ -53,6 +53,9 @@ def cases(draw):
         total = min(total, 400)
         case["pre"] = draw(gen.compositions(total, max_parts=4)) if total else []
         case["again"] = draw(st.integers(0, 2))
+    elif draw(st.integers(0, 5)) == 0 and params["itersLimit"] >= 4:
+        # Solve with a smaller budget first, then raise SolverParameters.itersLimit to the real one and Solve again
+        case["first_limit"] = draw(st.integers(1, params["itersLimit"] - 1))
     return case
 
 
@@ -70,6 +73,13 @@ def body(case):
         if "outside of interval" not in str(e):
             raise
         return False, ["N=%d" % run.n, "float-resolution-stop"]
+    if case.get("first_limit"):
+        run.sp.itersLimit = case["first_limit"]
+        run.solve()
+        pre = len(run.problem.log)        # these trials are taken as given; an ordinary case judges a first Solve
+        if pre > case["first_limit"]:
+            fail("%d evaluations exceed itersLimit=%d" % (pre, case["first_limit"]))
+        run.sp.itersLimit = limit
     sol = run.solve()
     for _ in range(case.get("again", 0)):
         before = len(run.problem.log)
@@ -123,6 +133,8 @@ def body(case):
     reason = "accuracy" if n < limit else ("both" if D and hoelder_eps_cmp(D[-1], eps) <= 0 else "budget")
     classes.append("stop=" + reason)
     tie = any(d == eps for d in D)
+    if case.get("first_limit"):
+        classes.append("budget-raised-then-solved-again")
     if "pre" in case:
         classes.append("pre-batches=%s" % ("all-budget" if pre == limit else ("some" if pre else "none")))
         classes.append("solve-again=%d" % case.get("again", 0))
